@@ -529,6 +529,17 @@ func nameSets() []*Set {
 		user.add(repeated(field("inners", 2, kindSpec{t: tMessage, name: deep.full})))
 		f.msg(user)
 	})
+	// enum with allow_alias whose alias is not declared next to the aliased value
+	mk("names-enum-alias", "nalias", func(f *fileB, pkg string) {
+		e := enum("Phase", "PHASE_UNKNOWN", 0, "PHASE_STARTED", 1, "PHASE_DONE", 2, "PHASE_RUNNING", 1, "PHASE_FINISHED", 2, "PHASE_NEG", -3)
+		e.Options = &descriptorpb.EnumOptions{AllowAlias: proto.Bool(true)}
+		f.enum(e)
+		m := newMsg("."+pkg, "Job")
+		m.add(field("phase", 1, kindSpec{t: tEnum, name: "." + pkg + ".Phase"}))
+		m.add(repeated(field("history", 2, kindSpec{t: tEnum, name: "." + pkg + ".Phase"})))
+		m.addMap("by_name", 3, tString, kindSpec{t: tEnum, name: "." + pkg + ".Phase"})
+		f.msg(m)
+	})
 	// message / enum names that need Go-name mangling
 	mk("names-mangle", "nmangle", func(f *fileB, pkg string) {
 		f.enum(enum("lower_enum", "lower_zero", 0, "lower_one", 1))
